@@ -84,6 +84,10 @@ def _driver(cfg, pup_argv, res_fd):
                 except pexpect.TIMEOUT:
                     pass
             out['pending_seen'] = (child.buffer if enc else child.buffer.decode('latin-1'))
+        if cfg.get('dead_first'):
+            # the harness lets the inner child write its output and exit before interact() is even entered
+            emit('WAIT-DEATH')
+            os.read(cfg['_go_fd'], 1)
         journal_start = len(journal)
         real_os = ps.os
         ev = out['events']
@@ -113,6 +117,11 @@ def _driver(cfg, pup_argv, res_fd):
                 return lambda b: b.replace(b'x', b'')
             if kind == 'grow-a':
                 return lambda b: b.replace(b'a', b'aaa')
+            if kind == 'slow':
+                def slow(b):
+                    time.sleep(0.05)
+                    return b
+                return slow
             return None
         esc = cfg.get('escape', '\x1d')
         ps.os = OsProxy()
